@@ -2,7 +2,8 @@
 // origin.  Bounded-exhaustive enumeration of (repository URL spelling, chart URL
 // spelling, pass-credentials, request kind, redirect, call path); every case runs
 // the real Helm code (getter.HTTPGetter with the real net/http client underneath,
-// ChartDownloader, ChartRepository, ChartPathOptions.LocateChart, Manager) against
+// ChartDownloader, ChartRepository, ChartPathOptions.LocateChart, Pull.Run,
+// Manager) against
 // an in-memory origin set that records the Authorization header of every request.
 package c19
 
@@ -19,7 +20,7 @@ import (
 
 const prop = "C19"
 
-var allPaths = []string{pGetter, pIndex, pDLRef, pDLFound, pDLNotFound, pMgrUpdate, pMgrBuild, pMgrRefresh, pMgrDecoy, pLocate}
+var allPaths = []string{pGetter, pIndex, pDLRef, pDLFound, pDLNotFound, pMgrUpdate, pMgrBuild, pMgrRefresh, pMgrDecoy, pLocate, pPull}
 
 func init() {
 	floors := []string{"redirect-evil-followed", "redirect-port-followed", "redirect-port-keeps-auth-observed", "tls-request", "proxy-connect", "proxy-plain",
@@ -28,7 +29,7 @@ func init() {
 		if p != pDLNotFound {
 			floors = append(floors, "carry:"+p)
 		}
-		if p != pIndex {
+		if p != pIndex && p != pMgrDecoy && p != pPull { // on manager-2repos and pull-repo every cross-origin request leaks on the unchanged tree (known findings)
 			floors = append(floors, "clean-cross-origin:"+p)
 		}
 		switch p {
@@ -42,10 +43,12 @@ func init() {
 		Level: "exploration",
 		Rule: "full product of repository-URL spellings x chart-URL spellings over scheme{http,https,HTTP} x host{repo.test,REPO.test,evil.test,repo.test.evil.test,sub.repo.test} x " +
 			"port{none,:80,:443,:8080} x userinfo{none,u@,repo.test@} x path{/charts/x.tgz,//x.tgz,/x.tgz,/../x.tgz; as bare index references also x.tgz, ../x.tgz, //evil.test/charts/x.tgz} " +
-			"x pass-credentials x request kind in focus {chart,.prov,index} x redirect {none, 302 to unrelated domain, 302 to same host other port} x 10 call paths " +
+			"x pass-credentials x request kind in focus {chart,.prov,index} x redirect {none, 302 to unrelated domain, 302 to same host other port} x 11 call paths " +
 			"(HTTPGetter.Get, DownloadIndexFile, DownloadTo by repo/chart, by URL found / not found in the index, Manager.Update / Build / Update with index refresh / Update with a second repository, " +
-			"LocateChart --repo through a loopback proxy); the full repository product is run at getter and index level, the other paths use the repository spellings with at most 1 (quick) / 2 (thorough) " +
-			"deviations from http://repo.test. distinct = the case tuple; a case is non-trivial when Helm issued at least one request",
+			"LocateChart --repo and Pull.Run --repo through a loopback proxy); the full 180 x 360 (quick) / 180 x 720 (thorough) repository x chart product is run at getter level and all 180 repositories at index level; " +
+			"the other call paths run the repository spellings with at most 1 deviation from http://repo.test (12) x every authority spelling of the chart (180, path /charts/x.tgz; thorough: all 4 paths, 720) plus the 5 bare references, " +
+			"thorough adds the 44 two-deviation repositories; quick crosses redirects with the paths that hand URLs to the getter differently, thorough crosses everything. " +
+			"distinct = the case tuple; a case is non-trivial when Helm issued at least one request",
 		Run:    run,
 		Replay: replay,
 		Assumptions: []string{
@@ -53,7 +56,7 @@ func init() {
 			"an Authorization header counts only when it equals Basic(alice:s3cret), the credentials configured for the repository; the header net/http derives from URL userinfo (u@host) is a different credential and is recorded as an observation",
 			"requests issued by net/http while following a 302 are judged only when the target host is unrelated to the repository host; same-host-other-port targets that still carry the header are an observation (net/http policy)",
 			"in-memory paths: real getter.HTTPGetter + real net/http client over net.Pipe; https is a real TLS session terminated in-process with a self-signed Ed25519 certificate, client side InsecureSkipVerify (the transport is injected, so Helm's own TLS options are bypassed there)",
-			"LocateChart hard-codes getter.All(settings): it is reached through HTTP_PROXY/HTTPS_PROXY pointing at a loopback listener of the worker process; https is intercepted after CONNECT with the same certificate and --insecure-skip-tls-verify",
+			"LocateChart and Pull.Run hard-code getter.All(settings): they are reached through HTTP_PROXY/HTTPS_PROXY pointing at a loopback listener of the worker process; https is intercepted after CONNECT with the same certificate and --insecure-skip-tls-verify",
 			"the request's port is the port net/http dialled (default filled in by net/http), the host is the Host header",
 			"OCI registries and plugin getters are outside the property (basic-auth repository credentials only)",
 		},
@@ -66,23 +69,15 @@ func init() {
 
 type kr struct{ kind, redirect string }
 
-// focusCombos: which (request kind in focus, redirect) pairs run on a call path.
-func focusCombos(path string, thorough bool) []kr {
+// allCombos: every (request kind in focus, redirect) pair of a call path.  Kind
+// "index" without a redirect is the same run as kind "chart" and is left out on
+// the paths that have other kinds.
+func allCombos(path string) []kr {
 	var out []kr
 	for _, k := range kindsOf(path) {
 		for _, r := range []string{"none", "evil", "port"} {
-			if !thorough {
-				// quick: redirects of the .prov request only at getter level and on dl-ref; Build/refresh/2repos
-				// differ from Update above the downloader only, so they run without redirects
-				if r != "none" && k == "prov" && path != pGetter && path != pDLRef {
-					continue
-				}
-				if r != "none" && (path == pMgrBuild || path == pMgrDecoy || path == pDLNotFound) {
-					continue
-				}
-				if r == "port" && (path == pMgrRefresh || path == pLocate) && k != "chart" {
-					continue
-				}
+			if k == "index" && r == "none" && path != pIndex {
+				continue
 			}
 			out = append(out, kr{k, r})
 		}
@@ -90,26 +85,40 @@ func focusCombos(path string, thorough bool) []kr {
 	return out
 }
 
+// coreCombos: the reduced set used by the quick tier (and by the thorough tier
+// for the 2-deviation repository spellings).  Redirect handling lives in net/http
+// below the getter and is crossed with everything at getter level; above it, it is
+// crossed with the paths that hand a URL to the getter in different ways.
+func coreCombos(path string) []kr {
+	switch path {
+	case pGetter, pIndex:
+		return allCombos(path)
+	case pDLRef, pDLFound, pMgrUpdate:
+		return []kr{{"chart", "none"}, {"prov", "none"}, {"chart", "evil"}, {"chart", "port"}}
+	case pMgrRefresh:
+		return []kr{{"chart", "none"}, {"index", "evil"}, {"index", "port"}}
+	case pLocate, pPull:
+		return []kr{{"chart", "none"}, {"prov", "none"}, {"chart", "evil"}, {"index", "evil"}, {"index", "port"}}
+	}
+	return []kr{{"chart", "none"}, {"prov", "none"}} // dl-url-notfound, manager-build, manager-2repos
+}
+
 type spaceInfo struct {
-	RepoFull, RepoReduced, RepoLocate int
-	ChartAbs, ChartAll                int
-	Unparsable                        int
-	PerPath                           map[string]int64
+	Bounds  map[string]string
+	PerPath map[string]int64
 }
 
 // enumerate calls f for every case, simplest first, in a fixed order.
+//
+//	quick:    getter   : all repository spellings x absolute chart spellings (2 paths) x pass, plain request;
+//	                     1-deviation repositories x the same charts x pass x every other (kind, redirect)
+//	          index    : all repository spellings x pass x redirect
+//	          others   : 1-deviation repositories x chart spellings (1 path + bare references) x pass x coreCombos
+//	thorough: getter   : as quick with all 4 paths and 2-deviation repositories in the second block
+//	          others   : 1-deviation repositories x chart spellings (4 paths + bare references) x pass x allCombos,
+//	                     plus exactly-2-deviation repositories x chart spellings (1 path + bare references) x pass x coreCombos
 func enumerate(thorough bool, only string, f func(Case)) spaceInfo {
-	nPaths, dev, devLocate := 2, 1, 1
-	if thorough {
-		nPaths, dev, devLocate = len(absPaths), 2, 1
-	}
-	reposFull, d1 := repoURLs(4)
-	reposRed, _ := repoURLs(dev)
-	reposLoc, _ := repoURLs(devLocate)
-	chAbs, d2 := chartURLs(nPaths, false)
-	chAll, d3 := chartURLs(nPaths, true)
-	info := spaceInfo{RepoFull: len(reposFull), RepoReduced: len(reposRed), RepoLocate: len(reposLoc), ChartAbs: len(chAbs), ChartAll: len(chAll),
-		Unparsable: d1 + d2 + (d3 - d2), PerPath: map[string]int64{}}
+	info := spaceInfo{Bounds: map[string]string{}, PerPath: map[string]int64{}}
 	emit := func(c Case) {
 		if only != "" && only != c.Path {
 			return
@@ -118,47 +127,58 @@ func enumerate(thorough bool, only string, f func(Case)) spaceInfo {
 		f(c)
 	}
 	bools := []bool{false, true}
-	// A: getter, full repository product, plain chart request
-	for _, r := range reposFull {
-		for _, ch := range chAbs {
-			for _, p := range bools {
-				emit(Case{Path: pGetter, Repo: r, Chart: ch, Pass: p, Kind: "chart", Redirect: "none"})
-			}
-		}
-	}
-	// B: index download, full repository product
-	for _, r := range reposFull {
-		for _, p := range bools {
-			for _, k := range focusCombos(pIndex, thorough) {
-				emit(Case{Path: pIndex, Repo: r, Chart: "x-0.1.0.tgz", Pass: p, Kind: k.kind, Redirect: k.redirect})
-			}
-		}
-	}
-	// C: every call path over the reduced repository set
-	for _, path := range allPaths {
-		if path == pIndex {
-			continue
-		}
-		repos := reposRed
-		if path == pLocate {
-			repos = reposLoc
-		}
-		combos := focusCombos(path, thorough)
+	block := func(path string, repos, charts []string, combos []kr, skipPlain bool) {
 		for _, r := range repos {
-			for _, ch := range chAll {
+			for _, ch := range charts {
 				if !applicable(path, ch) {
 					continue
 				}
 				for _, p := range bools {
 					for _, k := range combos {
-						if path == pGetter && k.kind == "chart" && k.redirect == "none" {
-							continue // in block A
+						if skipPlain && k.kind == "chart" && k.redirect == "none" {
+							continue
 						}
 						emit(Case{Path: path, Repo: r, Chart: ch, Pass: p, Kind: k.kind, Redirect: k.redirect})
 					}
 				}
 			}
 		}
+	}
+	gPaths, gDev, hPaths := 2, 1, 1
+	if thorough {
+		gPaths, gDev, hPaths = len(absPaths), 2, len(absPaths)
+	}
+	reposFull, d1 := repoURLs(0, 4)
+	repos1, _ := repoURLs(0, 1)
+	repos2, _ := repoURLs(2, 2)
+	reposG, _ := repoURLs(0, gDev)
+	chG, d2 := chartURLs(gPaths, false)
+	chH, d3 := chartURLs(hPaths, true)
+	ch1, _ := chartURLs(1, true)
+	info.Bounds["repo_url_spellings_full_product"] = fmt.Sprint(len(reposFull))
+	info.Bounds["repo_url_spellings_le1_deviation"] = fmt.Sprint(len(repos1))
+	info.Bounds["repo_url_spellings_eq2_deviations"] = fmt.Sprint(len(repos2))
+	info.Bounds["chart_url_spellings_getter_level"] = fmt.Sprint(len(chG))
+	info.Bounds["chart_url_spellings_other_paths"] = fmt.Sprint(len(chH))
+	info.Bounds["unparsable_spellings_removed"] = fmt.Sprint(d1 + d2 + d3)
+	info.Bounds["getter_pairs_full_product"] = fmt.Sprint(len(reposFull) * len(chG))
+
+	// getter, full repository product, plain chart request
+	block(pGetter, reposFull, chG, []kr{{"chart", "none"}}, false)
+	// index download, full repository product
+	block(pIndex, reposFull, []string{"x-0.1.0.tgz"}, allCombos(pIndex), false)
+	// getter, the remaining (kind, redirect) pairs
+	block(pGetter, reposG, chG, allCombos(pGetter), true)
+	for _, path := range allPaths {
+		if path == pIndex || path == pGetter {
+			continue
+		}
+		if !thorough {
+			block(path, repos1, chH, coreCombos(path), false)
+			continue
+		}
+		block(path, repos1, chH, allCombos(path), false)
+		block(path, repos2, ch1, coreCombos(path), false)
 	}
 	return info
 }
@@ -195,25 +215,50 @@ func evaluate(c Case, res Result) evaluated {
 	return ev
 }
 
+// violationsOf turns the verdicts of one case into at most one violation: the
+// first offending request in the order chart < index < .prov < other, requests
+// Helm issued itself before redirect targets.  (A chart request that leaks is
+// followed by a .prov request that leaks for the same reason; one defect, one
+// key.)  The key names the call path, the kind of the leaking request, whether it
+// was Helm's own request or a redirect target, the strongest component in which
+// the request's origin differs from the repository's (host > scheme > port) and
+// the form of the chart reference.
 func violationsOf(ev evaluated) []core.Violation {
-	var out []core.Violation
-	seen := map[string]bool{}
-	for _, v := range ev.Verdicts {
+	rank := func(v verdict) int {
+		r := map[string]int{"chart": 0, "index": 1, "prov": 2, "other": 3}[kindOfPath(v.Rec.Path)]
+		if v.Redirect {
+			r += 10
+		}
+		return r
+	}
+	var first *verdict
+	n := 0
+	for i := range ev.Verdicts {
+		v := &ev.Verdicts[i]
 		if !v.violation() {
 			continue
 		}
-		c := ev.Case
-		key := core.SanitizeKey(fmt.Sprintf("%s/%s/redirect=%s/%s/differs=%s/host=%s/chart=%s", c.Path, kindOfPath(v.Rec.Path), c.Redirect,
-			strings.TrimPrefix(v.Class, "VIOLATION-"), v.Differs, v.HostRel, chartForm(c.Chart)))
-		if seen[key] {
-			continue
+		n++
+		if first == nil || rank(*v) < rank(*first) {
+			first = v
 		}
-		seen[key] = true
-		rd, _ := json.Marshal(c)
-		what := fmt.Sprintf("%s: %s [repo=%s chart=%s pass-credentials=%v kind=%s redirect=%s]", c.Path, v.describe(c.Repo), c.Repo, c.Chart, c.Pass, c.Kind, c.Redirect)
-		out = append(out, core.Violation{Property: prop, Key: key, What: what, Replay: rd})
 	}
-	return out
+	if first == nil {
+		return nil
+	}
+	v, c := *first, ev.Case
+	strongest := "port"
+	switch {
+	case strings.Contains(v.Differs, "host"):
+		strongest = "host"
+	case strings.Contains(v.Differs, "scheme"):
+		strongest = "scheme"
+	}
+	key := core.SanitizeKey(fmt.Sprintf("%s/%s/%s/differs=%s/chart=%s", c.Path, kindOfPath(v.Rec.Path), strings.TrimPrefix(v.Class, "VIOLATION-"), strongest, chartForm(c.Chart)))
+	rd, _ := json.Marshal(c)
+	what := fmt.Sprintf("%s: %s; %d offending request(s) in this case [repo=%s chart=%s pass-credentials=%v kind=%s redirect=%s]",
+		c.Path, v.describe(c.Repo), n, c.Repo, c.Chart, c.Pass, c.Kind, c.Redirect)
+	return []core.Violation{{Property: prop, Key: key, What: what, Replay: rd}}
 }
 
 func replay(_ *core.Ctx, data json.RawMessage) []core.Violation {
@@ -333,8 +378,18 @@ func run(c *core.Ctx) {
 	defer w.cleanup()
 	sampled := map[string]bool{}
 	perPathMs := map[string]int64{}
+	// internal deadline well inside the runner's watchdog (900 s quick, 3 h thorough)
+	deadline := t0.Add(780 * time.Second)
+	if c.Thorough() {
+		deadline = t0.Add(170 * time.Minute)
+	}
+	skipped := int64(0)
 	info := enumerate(c.Thorough(), c.Only, func(cs Case) {
 		if !c.NextMine() {
+			return
+		}
+		if skipped > 0 || time.Now().After(deadline) {
+			skipped++
 			return
 		}
 		t := time.Now()
@@ -362,15 +417,15 @@ func run(c *core.Ctx) {
 			}
 		}
 	})
-	for p, us := range perPathMs {
-		c.Count("cpu_ms:"+p, us/1000)
+	if skipped > 0 {
+		c.NotExhaustive("internal deadline reached on shard %d: %d cases of this shard not run", c.Shard, skipped)
 	}
-	c.Bound("repo_url_spellings_full_product", fmt.Sprint(info.RepoFull))
-	c.Bound("repo_url_spellings_reduced", fmt.Sprint(info.RepoReduced))
-	c.Bound("repo_url_spellings_locate", fmt.Sprint(info.RepoLocate))
-	c.Bound("chart_url_spellings_absolute", fmt.Sprint(info.ChartAbs))
-	c.Bound("chart_url_spellings_with_bare_references", fmt.Sprint(info.ChartAll))
-	c.Bound("unparsable_spellings_removed", fmt.Sprint(info.Unparsable))
+	for p, us := range perPathMs {
+		c.Count("wall_ms:"+p, us/1000)
+	}
+	for k, v := range info.Bounds {
+		c.Bound(k, v)
+	}
 	var ps []string
 	for p, n := range info.PerPath {
 		ps = append(ps, fmt.Sprintf("%s=%d", p, n))
